@@ -57,6 +57,9 @@ Under(s, d) == d = 0 \/ d \in Anc(s)
 Atoms == [t : {"name", "anch", "dironly"}, n : {"f", "b"}]
 SizeLimit == 5
 SizeOf(k) == CASE k = "big" -> 6 [] k = "at" -> 5 [] OTHER -> 2
+\* scan roots hold the same tree, except that in even-numbered roots small and oversize regular files swap sizes
+\* (so that state leaking from one root into the next is observable)
+SizeIn(rt, k) == IF rt % 2 = 0 /\ k = "big" THEN 2 ELSE IF rt % 2 = 0 /\ k = "file" THEN 6 ELSE SizeOf(k)
 
 FaultSites == {[op |-> "statroot", s |-> 0, k |-> 0]}
          \cup {[op |-> "opendir", s |-> d, k |-> 0] : d \in {0, 2, 5, 10}}
@@ -108,18 +111,18 @@ GiAtoms(d) == IF GiOf(d) # 0 /\ tree[GiOf(d)] = "file" THEN gic[GiOf(d)] ELSE {}
 GitIgnored(s, isDir) == cfg.useGit /\ \E d \in ({0} \cup Anc(s)) : \E at \in GiAtoms(d) : AtomMatch(at, RelNames(s, d), isDir)
 RuleSkipped(d) == d \in cfg.skipList \/ d \in cfg.reSkip \/ d \in cfg.globSkip \/ GitIgnored(d, TRUE)
 Wanted(s) == tree[s] \in {"file", "big", "at"} \/ (tree[s] = "link" /\ cfg.readLinks)
-InSize(s) == ~cfg.limit \/ SizeOf(tree[s]) <= SizeLimit
+InSize(rt, s) == ~cfg.limit \/ SizeIn(rt, tree[s]) <= SizeLimit
 \* s is reached by a walk that starts at directory r (0 = the scan root) and is a file some extractor may get
 ReachedFrom(s, r) == /\ Under(s, r)
                      /\ \A d \in Anc(s) : (d # r /\ Under(d, r)) => (IsDir(d) /\ ~RuleSkipped(d))
                      /\ cfg.ignoreSub => Par[s] = r
-EligibleFrom(s, r) == Present(s) /\ ~IsDir(s) /\ ReachedFrom(s, r) /\ Wanted(s) /\ InSize(s) /\ ~GitIgnored(s, FALSE)
+EligibleFrom(rt, s, r) == Present(s) /\ ~IsDir(s) /\ ReachedFrom(s, r) /\ Wanted(s) /\ InSize(rt, s) /\ ~GitIgnored(s, FALSE)
 \* number of scan roots / requested paths that reach file s
-Reaches(s) == IF cfg.paths = <<>> THEN IF EligibleFrom(s, 0) THEN 1 ELSE 0
+Reaches(rt, s) == IF cfg.paths = <<>> THEN IF EligibleFrom(rt, s, 0) THEN 1 ELSE 0
               ELSE Cardinality({i \in 1..Len(cfg.paths) :
-                     LET r == cfg.paths[i] IN IF IsDir(r) THEN EligibleFrom(s, r)
-                                              ELSE r = s /\ Wanted(s) /\ InSize(s)})
-ExpectedCount(e, s) == IF s \in req[e] THEN Reaches(s) ELSE 0
+                     LET r == cfg.paths[i] IN IF IsDir(r) THEN EligibleFrom(rt, s, r)
+                                              ELSE r = s /\ Wanted(s) /\ InSize(rt, s)})
+ExpectedCount(rt, e, s) == IF s \in req[e] THEN Reaches(rt, s) ELSE 0
 
 -----------------------------------------------------------------------------
 (* ------------------------- scenario construction ------------------------- *)
@@ -259,7 +262,7 @@ Dispatch(i, s, st) ==   \* st = [ncalls, calls, late, pkgs, errs, found, cancell
 \* the part of handleFile after the bookkeeping, for a non-directory s, with gitignore stack g
 VisitFile(g, s) ==
   LET go == /\ Wanted(s) /\ ~(cfg.useGit /\ GitStackMatch(g, s, FALSE))
-            /\ (cfg.limit /\ ~Faulty("lazystat", s, 0)) => SizeOf(tree[s]) <= SizeLimit
+            /\ (cfg.limit /\ ~Faulty("lazystat", s, 0)) => SizeIn(root, tree[s]) <= SizeLimit
       st0 == [ncalls |-> ncalls, calls |-> calls, late |-> late, pkgs |-> pkgs, errs |-> errs, found |-> found, cancelled |-> cancelled]
       st == IF go THEN Dispatch(1, s, st0) ELSE st0
   IN /\ ncalls' = st.ncalls /\ calls' = st.calls /\ late' = st.late /\ pkgs' = st.pkgs
@@ -373,15 +376,15 @@ NoFailOutcome == \A x \in Ex \X Slot : out[x] \in {"ok", "empty"}
 ExactlyTheRequired ==
   (Done /\ Clean) => /\ status = "ok"
                      /\ \A r \in 1..3, e \in Ex, s \in Slot :
-                          calls[<<r, e, s>>] = IF r <= cfg.roots THEN ExpectedCount(e, s) ELSE 0
+                          calls[<<r, e, s>>] = IF r <= cfg.roots THEN ExpectedCount(r, e, s) ELSE 0
 InventoryIsUnion ==
   (Done /\ Clean) => \A r \in 1..3, e \in Ex, s \in Slot :
                           pkgs[<<r, e, s>>] = IF out[<<e, s>>] \in {"ok", "errpkg"} THEN calls[<<r, e, s>>] ELSE 0
 NeverExtra == (\A f \in cfg.faults : f.op # "opengi") =>     \* an unreadable .gitignore contributes no patterns
-              \A r \in 1..3, e \in Ex, s \in Slot : calls[<<r, e, s>>] <= (IF r <= cfg.roots THEN ExpectedCount(e, s) ELSE 0)
+              \A r \in 1..3, e \in Ex, s \in Slot : calls[<<r, e, s>>] <= (IF r <= cfg.roots THEN ExpectedCount(r, e, s) ELSE 0)
 \* C10: the limits are hard bounds
 InodeBound == cfg.maxInodes > 0 => visited <= cfg.maxInodes
-SizeBound == \A r \in 1..3, e \in Ex, s \in Slot : (calls[<<r, e, s>>] > 0 /\ cfg.limit) => SizeOf(tree[s]) <= SizeLimit
+SizeBound == \A r \in 1..3, e \in Ex, s \in Slot : (calls[<<r, e, s>>] > 0 /\ cfg.limit) => SizeIn(r, tree[s]) <= SizeLimit
 NothingAfterCancel == \A x \in late : \E e \in Ex : calls[<<x[1], e, x[3]>>] > 0 /\ <<x[1], e, x[3]>> \notin late
 \* C09: plugin statuses surface failures; the scan fails only on request
 StatusOf(e) == IF ~errs[e] THEN "ok" ELSE IF found[e] THEN "partial" ELSE "failed"
@@ -393,7 +396,7 @@ Containment ==
         /\ \A f \in cfg.faults : f.op \in {"open", "fstat", "lazystat", "read"}) =>
      \A r \in 1..cfg.roots, e \in Ex, s \in Slot :
         LET hit == \E f \in cfg.faults : f.s = s /\ (f.op \in {"open", "fstat", "lazystat"})
-        IN calls[<<r, e, s>>] = IF hit THEN 0 ELSE ExpectedCount(e, s)
+        IN calls[<<r, e, s>>] = IF hit THEN 0 ELSE ExpectedCount(r, e, s)
 
 TypeOK == /\ status \in {"run", "ok", "failed"} /\ inodes >= visited /\ Len(gis) <= 4 /\ Len(stack) <= 3
 
@@ -414,7 +417,7 @@ Case == [nodes |-> NodesJson, cfg |-> CfgJson, ex |-> ExSeq,
                      optional |-> {<<x[1], x[2], Path[x[3]]>> : x \in late},
                      pkgs |-> Triples(pkgs), visited |-> visited,
                      plugins |-> [e \in Ex |-> StatusOf(e)], cancelled |-> cancelled,
-                     work_remained |-> \E r \in 1..cfg.roots, e \in Ex, sl \in Slot : calls[<<r, e, sl>>] < ExpectedCount(e, sl)]]
+                     work_remained |-> \E r \in 1..cfg.roots, e \in Ex, sl \in Slot : calls[<<r, e, sl>>] < ExpectedCount(r, e, sl)]]
 Emit == Done => PrintT(ToJson(Case))
 \* sanity (TLC must violate these): the interesting cases are reachable
 SanityExtract == ~(Done /\ Clean /\ \E x \in DOMAIN calls : calls[x] > 0)
